@@ -45,6 +45,9 @@ type blockRec struct {
 	Lits   []byte
 	Err    error
 	Builds int // number of times the buffer content changed before this block (fills+shrinks+resets)
+	// Fed is the stream since the last Reset at the time of the call (the
+	// positions above refer to it).
+	Fed []byte `json:"-"`
 }
 
 // parserExec executes a parser history against the implementation and the
@@ -85,6 +88,9 @@ type parserExec struct {
 	readFromFull                  bool
 	readsAfterShrink              int
 	contentChanges                int
+
+	c11Blocks, c11MLM, c11Mixed, c11AfterRebuild int
+	c12Matches, c12AfterRebuild, c12AfterCut     int
 
 	keepBlocks bool
 	blocks     []blockRec
@@ -541,7 +547,8 @@ func (x *parserExec) doParse(op POp) {
 	x.parsedSinceAdd = true
 	if x.keepBlocks {
 		x.blocks = append(x.blocks, blockRec{W: x.w, N: n, Off: x.off, End: len(x.fed), Flags: op.Flags,
-			Seqs: cloneSeqs(seqs), Lits: cloneBytes(lits), Builds: x.contentChanges})
+			Seqs: cloneSeqs(seqs), Lits: cloneBytes(lits), Builds: x.contentChanges,
+			Fed: x.fed[:len(x.fed):len(x.fed)]})
 	}
 
 	// ---- C02: fields of every sequence against the absolute position.
